@@ -218,6 +218,57 @@ Theorem C15_callbacks_dump :
 Proof. exact sc_dump_callbacks. Qed.
 Print Assumptions C15_callbacks_dump.
 
+(* ---- root module: SelectiveCar over a LIST of Dag entries (root, selector) ---------------------------- *)
+(* ds = the Dag entries in order, each with the trace of ITS walk (what that root+selector opens under
+   the options; the oracle, recorded from a reference run of the traversal library).  One cidSet and
+   one running offset are shared by all entries; the first failing walk aborts the rest. *)
+Theorem C15_exact_once_selective_car_dags :
+  forall k ds,
+    fst (fst (sc_write_dags k ds)) = enc_payload (map fst ds) (first_occ (fst (dag_loads ds)))
+    /\ snd (sc_write_dags k ds) = snd (dag_loads ds).
+Proof. exact sc_write_dags_exact. Qed.
+Print Assumptions C15_exact_once_selective_car_dags.
+
+(* every walk succeeded: header roots = all the Dags' roots in order; payload = first occurrences of
+   the concatenation of the per-Dag loads; Prepare announces exactly that *)
+Theorem C15_exact_once_selective_car_dags_ok :
+  forall k ds,
+    Forall (fun d => t_ok (snd d) = true) ds ->
+    fst (fst (sc_write_dags k ds))
+    = enc_payload (map fst ds) (first_occ (concat (map (fun d => blocks_of (t_loads (snd d))) ds)))
+    /\ snd (sc_write_dags k ds) = true.
+Proof. exact sc_write_dags_all_ok. Qed.
+Print Assumptions C15_exact_once_selective_car_dags_ok.
+
+Theorem C15_announced_size_prepare_dags :
+  forall ds,
+    Forall (fun d => t_ok (snd d) = true) ds ->
+    let bs := first_occ (concat (map (fun d => blocks_of (t_loads (snd d))) ds)) in
+    sc_prepare_dags ds = Some (blen (enc_payload (map fst ds) bs), map fst ds, map fst bs).
+Proof. exact sc_prepare_dags_all_ok. Qed.
+Print Assumptions C15_announced_size_prepare_dags.
+
+(* no Dag entry is lost, whatever earlier entries already wrote: every block any entry's walk opened is
+   in the output, and (each walk opening its own root first) so is every entry's root *)
+Theorem C15_no_dag_entry_lost :
+  forall ds,
+    Forall (fun d => t_ok (snd d) = true) ds ->
+    let bs := first_occ (concat (map (fun d => blocks_of (t_loads (snd d))) ds)) in
+    (forall d c, In d ds -> In c (map fst (blocks_of (t_loads (snd d)))) -> In c (map fst bs))
+    /\ (Forall (fun d => exists x rest, blocks_of (t_loads (snd d)) = (fst d, x) :: rest) ds ->
+        forall r, In r (map fst ds) -> In r (map fst bs)).
+Proof. exact sc_dags_nothing_lost. Qed.
+Print Assumptions C15_no_dag_entry_lost.
+
+Theorem C15_dump_eq_write_dags :
+  forall k store ds size hroots cids,
+    sc_prepare_dags ds = Some (size, hroots, cids) ->
+    Forall (fun b => store (fst b) = Some (snd b)) (first_occ (fst (dag_loads ds))) ->
+    sc_dump k store hroots cids = sc_write_dags k ds
+    /\ size = blen (fst (fst (sc_write_dags k ds))).
+Proof. exact sc_dags_dump_eq_write. Qed.
+Print Assumptions C15_dump_eq_write_dags.
+
 (* ---- root module: WriteCar / WriteCarWithWalker ------------------------------------------------------ *)
 Theorem C15_exact_once_write_car :
   forall roots vs ok,
